@@ -191,6 +191,24 @@ void mmd_print_string_opendocument(DString * out, const char * str, bool line_br
 }
 
 
+/// Print a string as (part of) an attribute value -- a tab can't be an element there
+static void mmd_print_attribute_opendocument(DString * out, const char * str) {
+	if (str == NULL) {
+		return;
+	}
+
+	while (*str != '\0') {
+		if (*str == '\t') {
+			print_const("&#9;");
+		} else {
+			mmd_print_char_opendocument(out, *str, false);
+		}
+
+		str++;
+	}
+}
+
+
 void mmd_print_localized_char_opendocument(DString * out, unsigned short type, scratch_pad * scratch) {
 	switch (type) {
 		case DASH_N:
@@ -541,7 +559,7 @@ void mmd_export_token_opendocument_math(DString * out, const char * source, toke
 void mmd_export_link_opendocument(DString * out, const char * source, token * text, link * link, scratch_pad * scratch) {
 	if (link->url) {
 		print_const("<text:a xlink:type=\"simple\" xlink:href=\"");
-		mmd_print_string_opendocument(out, link->url, false);
+		mmd_print_attribute_opendocument(out, link->url);
 		print_const("\"");
 	} else {
 		print_const("<text:a xlink:type=\"simple\" xlink:href=\"\"");
@@ -549,7 +567,7 @@ void mmd_export_link_opendocument(DString * out, const char * source, token * te
 
 	if (link->title && link->title[0] != '\0') {
 		print_const(" office:name=\"");
-		mmd_print_string_opendocument(out, link->title, false);
+		mmd_print_attribute_opendocument(out, link->title);
 		print_const("\"");
 	}
 
@@ -619,7 +637,7 @@ void mmd_export_image_opendocument(DString * out, const char * source, token * t
 
 	if (width) {
 		print_const(" svg:width=\"");
-		mmd_print_string_opendocument(out, width, false);
+		mmd_print_attribute_opendocument(out, width);
 		print_const("\">\n");
 	} else {
 		print_const(" svg:width=\"95%\">\n");
@@ -629,9 +647,9 @@ void mmd_export_image_opendocument(DString * out, const char * source, token * t
 
 	if (height && width) {
 		print_const("svg:height=\"");
-		mmd_print_string_opendocument(out, height, false);
+		mmd_print_attribute_opendocument(out, height);
 		print_const("\" svg:width=\"");
-		mmd_print_string_opendocument(out, width, false);
+		mmd_print_attribute_opendocument(out, width);
 		print_const("\" ");
 	}
 
@@ -651,7 +669,7 @@ void mmd_export_image_opendocument(DString * out, const char * source, token * t
 			printf(">\n<draw:image xlink:href=\"Pictures/%s\"", a->asset_path);
 		} else {
 			print_const(">\n<draw:image xlink:href=\"");
-			mmd_print_string_opendocument(out, link->url, false);
+			mmd_print_attribute_opendocument(out, link->url);
 			print_const("\"");
 		}
 	} else {
